@@ -96,6 +96,11 @@ def expected(d: dict):
                 for p, r, a in vs:
                     if r and p <= e['pos'] <= p + len(r) - 1:
                         return True, i, f'PAM edit at {e["pos"]} on a base altered by {(p, r, a)}', per_t
+            # ... and an edit on a deleted base cannot be applied at all, coding or not (since fix 7b135b7 it is refused instead of being applied elsewhere)
+            if e['sgrna'] in ids:
+                for p, r, a in vs:
+                    if r and not a and p <= e['pos'] <= p + len(r) - 1:
+                        return True, i, f'PAM edit at {e["pos"]} on a base deleted by {(p, r, a)}', per_t
     return False, None, '', per_t
 
 
@@ -139,7 +144,7 @@ def gen_design(rng, i: int) -> dict | None:
     t0 = rng.choice(d['targetons'])
     # the variant under study: starts inside a targeton
     kinds = ['syn', 'aa', 'aa', 'non', 'stopstop', 'mnv', 'inframe_indel', 'fs_indel', 'fs_indel', 'intron_into_exon', 'nc_snv', 'nc_indel', 'pam_on_bg',
-             'junction_aa', 'junction_syn']
+             'junction_aa', 'junction_syn', 'pam_on_del']
     kind = kinds[i % len(kinds)]
     coding_pos = [p for p in range(t0['ref_start'] + 1, t0['ref_end'] - 7) if inex(p) and fr.codon_positions(p) and p not in pam_pos]
     nonc_pos = [p for p in range(t0['ref_start'] + 1, t0['ref_end'] - 7) if not any(inex(q) for q in range(p - 2, p + 8)) and p not in pam_pos]
@@ -200,6 +205,21 @@ def gen_design(rng, i: int) -> dict | None:
                 ln = rng.choice([2, 3])
                 alt = ''.join(rng.choice([c for c in 'ACGT' if c != U[q - 1]]) for q in range(p, p + ln))
                 ok = add({'pos': p, 'ref': U[p - 1:p - 1 + ln], 'alts': [alt]}, list(range(p, p + ln)))
+                break
+    elif kind == 'pam_on_del':
+        # a coding deletion and a PAM edit of the targeton's guide on one of the deleted bases: refused whatever the force flags
+        ln = rng.choice([1, 2, 3, 3, 6])
+        for p in coding_pos:
+            span = list(range(p, p + ln + 1))
+            if all(inex(q) and q not in pam_pos and q not in bounds for q in span) and inex(p + ln + 1):
+                ok = add({'pos': p, 'ref': U[p - 1:p + ln], 'alts': [U[p - 1]]}, span)
+                if ok:
+                    q = rng.choice(span[1:])
+                    ids = t0.get('sgrna') or ['sg1']
+                    t0['sgrna'] = sorted(set(ids))
+                    cp = set(fr.codon_positions(q) or [q])
+                    d['pam'] = [e for e in (d.get('pam') or []) if e['pos'] not in cp]
+                    d['pam'].append({'pos': q, 'ref': U[q - 1], 'alt': rng.choice([c for c in 'ACGT' if c != U[q - 1]]), 'sgrna': t0['sgrna'][0]})
                 break
     elif kind in ('inframe_indel', 'fs_indel'):
         ln = rng.choice([3, 6]) if kind == 'inframe_indel' else rng.choice([1, 2, 4, 5])
@@ -333,7 +353,7 @@ def check(ctx: Ctx, d: dict, r: dict, exprs: list, meta: list):
             ctx.violation('spec_violation', f'refused run left library files of the offending targeton: {left}', {'surface': 'file', 'design': d, 'files': left})
     # the decision loop of the model on the classified variants of each targeton up to the verdict
     tb = codonspec.Table(d.get('codon_table'))
-    if (o.get('force_fs') and not o.get('force_ns')) or (d.get('c15_kind') or '').startswith('pam_on_bg'):
+    if (o.get('force_fs') and not o.get('force_ns')) or (d.get('c15_kind') or '').startswith('pam_on'):
         return
     for i, mine in enumerate(per_t):
         want_err = refused and i == idx
